@@ -42,48 +42,39 @@ Fixpoint replace_nth {A} (n : nat) (x : A) (l : list A) : list A :=
   end.
 
 (* ------------------------------------------------------------------------------------------ *)
-(* importer state                                                                              *)
+(* importer environment (maps filled before the messages are read, read-only afterwards) and    *)
+(* importer state (what importing a signal can change)                                          *)
 (* ------------------------------------------------------------------------------------------ *)
+Record ienv := mkienv {
+  ie_node_desc : list (string * string);
+  ie_msg_desc : list (Z * string);
+  ie_sig_desc : list (key * string);
+  ie_sig_enums : list (key * Z);            (* signalEnums: key -> index into is_enums *)
+  ie_ext_muxes : list (key * dextmux) }.
+
 Record istate := mkistate {
-  is_node_desc : list (string * string);
-  is_msg_desc : list (Z * string);
-  is_sig_desc : list (key * string);
   is_enums : list enum_def;                 (* every SignalEnum object; the registry is a prefix *)
-  is_nreg : nat;                            (* length of signalEnumRegistry *)
-  is_sig_enums : list (key * Z);            (* signalEnums: key -> index into is_enums *)
-  is_ext_muxes : list (key * dextmux);
   is_sigmap : list (key * (nat * Z));       (* signals: key -> (message position, signal id) *)
   is_enum_refs : list Z }.                  (* one entry per NewEnumSignal: the enum it references *)
 
-(* importComments *)
-Definition import_comments (cs : list dcomment) : (string * istate) :=
-  fold_left (fun '(bdesc, st) c =>
+(* importComments: bus description and the three comment maps *)
+Definition import_comments (cs : list dcomment)
+  : string * (list (string * string) * list (Z * string) * list (key * string)) :=
+  fold_left (fun '(bdesc, (nd, md, sd)) c =>
     match cm_kind c with
-    | OGeneral => (cm_text c, st)
-    | ONode => (bdesc, mkistate ((cm_node c, cm_text c) :: is_node_desc st) (is_msg_desc st) (is_sig_desc st)
-                        (is_enums st) (is_nreg st) (is_sig_enums st) (is_ext_muxes st) (is_sigmap st) (is_enum_refs st))
-    | OMessage => (bdesc, mkistate (is_node_desc st) ((cm_msg c, cm_text c) :: is_msg_desc st) (is_sig_desc st)
-                        (is_enums st) (is_nreg st) (is_sig_enums st) (is_ext_muxes st) (is_sigmap st) (is_enum_refs st))
-    | OSignal => (bdesc, mkistate (is_node_desc st) (is_msg_desc st) (((cm_msg c, cm_sig c), cm_text c) :: is_sig_desc st)
-                        (is_enums st) (is_nreg st) (is_sig_enums st) (is_ext_muxes st) (is_sigmap st) (is_enum_refs st))
-    | OEnvVar => (bdesc, st)
-    end) cs (EmptyString, mkistate [] [] [] [] O [] [] [] []).
+    | OGeneral => (cm_text c, (nd, md, sd))
+    | ONode => (bdesc, ((cm_node c, cm_text c) :: nd, md, sd))
+    | OMessage => (bdesc, (nd, (cm_msg c, cm_text c) :: md, sd))
+    | OSignal => (bdesc, (nd, md, ((cm_msg c, cm_sig c), cm_text c) :: sd))
+    | OEnvVar => (bdesc, (nd, md, sd))
+    end) cs (EmptyString, ([], [], [])).
 
-Definition set_enums (st : istate) (es : list enum_def) (nreg : nat) : istate :=
-  mkistate (is_node_desc st) (is_msg_desc st) (is_sig_desc st) es nreg
-           (is_sig_enums st) (is_ext_muxes st) (is_sigmap st) (is_enum_refs st).
-Definition set_sig_enums (st : istate) (se : list (key * Z)) : istate :=
-  mkistate (is_node_desc st) (is_msg_desc st) (is_sig_desc st) (is_enums st) (is_nreg st)
-           se (is_ext_muxes st) (is_sigmap st) (is_enum_refs st).
-Definition set_ext_muxes (st : istate) (em : list (key * dextmux)) : istate :=
-  mkistate (is_node_desc st) (is_msg_desc st) (is_sig_desc st) (is_enums st) (is_nreg st)
-           (is_sig_enums st) em (is_sigmap st) (is_enum_refs st).
+Definition set_enums (st : istate) (es : list enum_def) : istate :=
+  mkistate es (is_sigmap st) (is_enum_refs st).
 Definition set_sigmap (st : istate) (sm : list (key * (nat * Z))) : istate :=
-  mkistate (is_node_desc st) (is_msg_desc st) (is_sig_desc st) (is_enums st) (is_nreg st)
-           (is_sig_enums st) (is_ext_muxes st) sm (is_enum_refs st).
+  mkistate (is_enums st) sm (is_enum_refs st).
 Definition add_enum_ref (st : istate) (e : Z) : istate :=
-  mkistate (is_node_desc st) (is_msg_desc st) (is_sig_desc st) (is_enums st) (is_nreg st)
-           (is_sig_enums st) (is_ext_muxes st) (is_sigmap st) (e :: is_enum_refs st).
+  mkistate (is_enums st) (is_sigmap st) (e :: is_enum_refs st).
 
 (* NewSignalEnum + AddValue for each value (index unique, then name unique; maxIndex updated) *)
 Fixpoint enum_add_values (e : enum_def) (vs : list (Z * string)) : result enum_def :=
@@ -99,10 +90,10 @@ Fixpoint enum_add_values (e : enum_def) (vs : list (Z * string)) : result enum_d
 Definition new_enum (name : string) (vs : list (Z * string)) : result enum_def :=
   enum_add_values (mkenum name [] 0 1) vs.
 
-(* importValueTable *)
-Definition import_value_table (st : istate) (vt : dvaltable) : result istate :=
+(* importValueTable: the registry *)
+Definition import_value_table (reg : list enum_def) (vt : dvaltable) : result (list enum_def) :=
   do e <- new_enum (vt_name vt) (vt_values vt);
-  Ok (set_enums st (is_enums st ++ [e]) (S (is_nreg st))).
+  Ok (reg ++ [e]).
 
 (* the registry-matching loop of importValueEncoding: same length and, position by position in
    index order, same name and index; an empty list never matches *)
@@ -122,22 +113,23 @@ Fixpoint find_in_registry (vals : list (Z * string)) (reg : list enum_def) (pos 
       then Some pos else find_in_registry vals r (pos + 1)
   end.
 
-(* importValueEncoding *)
-Definition import_value_encoding (st : istate) (ve : dvalenc) : result istate :=
-  if negb (ve_signal ve) then Ok st else
+(* importValueEncoding: (all enums, signalEnums); the first `nreg` enums are the registry *)
+Definition import_value_encoding (nreg : nat) (acc : list enum_def * list (key * Z)) (ve : dvalenc)
+  : result (list enum_def * list (key * Z)) :=
+  let '(es, se) := acc in
+  if negb (ve_signal ve) then Ok acc else
   let values := sort_by (fun a b => fst a <? fst b) (ve_values ve) in
   let k := (ve_msg ve, ve_sig ve) in
-  match find_in_registry values (firstn (is_nreg st) (is_enums st)) 0 with
-  | Some i => Ok (set_sig_enums st ((k, i) :: is_sig_enums st))
+  match find_in_registry values (firstn nreg es) 0 with
+  | Some i => Ok (es, (k, i) :: se)
   | None =>
       do e <- new_enum (String.append (ve_sig ve) "_Enum") values;
-      let i := Z.of_nat (length (is_enums st)) in
-      Ok (set_sig_enums (set_enums st (is_enums st ++ [e]) (is_nreg st)) ((k, i) :: is_sig_enums st))
+      Ok (es ++ [e], (k, Z.of_nat (length es)) :: se)
   end.
 
 (* importExtMuxes *)
-Definition import_ext_muxes (st : istate) (l : list dextmux) : istate :=
-  set_ext_muxes st (fold_left (fun acc em => ((em_msg em, em_muxed em), em) :: acc) l (is_ext_muxes st)).
+Definition import_ext_muxes (l : list dextmux) : list (key * dextmux) :=
+  fold_left (fun acc em => ((em_msg em, em_muxed em), em) :: acc) l [].
 
 (* importNodes: ids by position, dummy names skipped, placeholder node (id 1024) added last *)
 Fixpoint import_nodes_aux (descs : list (string * string)) (names : list string) (idx : Z)
@@ -194,24 +186,24 @@ Definition import_standard (id : Z) (ds : dsignal) : result signal :=
                  (ds_unit ds) 0 0 0 EmptyString fl_zero 0 []).
 
 (* importSignal: returns the signal and the state (enum min size, signals map) *)
-Definition import_signal (st : istate) (mpos : nat) (msgid : Z) (id : Z) (ds : dsignal)
+Definition import_signal (env : ienv) (st : istate) (mpos : nat) (msgid : Z) (id : Z) (ds : dsignal)
   : result (signal * istate) :=
   let k := (msgid, ds_name ds) in
   do sst <-
-    match lookup key_eqb k (is_sig_enums st) with
+    match lookup key_eqb k (ie_sig_enums env) with
     | Some ei0 =>
         (* an enum already referenced by a signal of another size is cloned for this signal *)
         let e0 := nth_enum (is_enums st) ei0 in
         let shared := mem_z ei0 (is_enum_refs st) && negb (enum_size e0 =? ds_size ds) in
         let ei := if shared then Z.of_nat (length (is_enums st)) else ei0 in
         let st0 := if shared
-                   then set_enums st (is_enums st ++ [mkenum (en_name e0) (en_values e0) (en_maxindex e0) 1]) (is_nreg st)
+                   then set_enums st (is_enums st ++ [mkenum (en_name e0) (en_values e0) (en_maxindex e0) 1])
                    else st in
         let e := nth_enum (is_enums st0) ei in
         let st1 := if enum_size e <? ds_size ds
                    then set_enums st0 (replace_nth (Z.to_nat ei)
                                         (mkenum (en_name e) (en_values e) (en_maxindex e) (ds_size ds))
-                                        (is_enums st0)) (is_nreg st0)
+                                        (is_enums st0))
                    else st0 in
         if enum_size (nth_enum (is_enums st1) ei) >? ds_size ds then Err "value description does not fit in the signal"
         else
@@ -220,7 +212,7 @@ Definition import_signal (st : istate) (mpos : nat) (msgid : Z) (id : Z) (ds : d
     | None => do s <- import_standard id ds; Ok (s, st)
     end;
   let '(s, st1) := sst in
-  let s1 := match lookup key_eqb k (is_sig_desc st1) with Some d => set_desc s d | None => s end in
+  let s1 := match lookup key_eqb k (ie_sig_desc env) with Some d => set_desc s d | None => s end in
   Ok (s1, set_sigmap st1 ((k, (mpos, id)) :: is_sigmap st1)).
 
 (* ---- layouts ---- *)
@@ -289,7 +281,7 @@ Fixpoint expand_ranges (gcount : Z) (rs : list (Z * Z)) : result (list Z) :=
   end.
 
 (* importMuxSignal *)
-Definition import_mux_signal (st : istate) (mpos : nat) (msgid : Z) (id : Z) (dm : dsignal)
+Definition import_mux_signal (env : ienv) (st : istate) (mpos : nat) (msgid : Z) (id : Z) (dm : dsignal)
            (muxed : list (subtree * dsignal)) : result (subtree * istate) :=
   let es := is_enums st in
   let end_bit := fold_left (fun acc '((s, _), ds) =>
@@ -308,7 +300,7 @@ Definition import_mux_signal (st : istate) (mpos : nat) (msgid : Z) (id : Z) (dm
                do (kids, belows) <- acc;
                let rel := get_start_bit ds - mstart - msize in
                do gids <-
-                 match lookup key_eqb (msgid, s_name s) (is_ext_muxes st) with
+                 match lookup key_eqb (msgid, s_name s) (ie_ext_muxes env) with
                  | Some em =>
                      do g <- expand_ranges gcount (em_ranges em);
                      Ok (if Z.of_nat (length g) =? gcount then [] else g)
@@ -319,7 +311,7 @@ Definition import_mux_signal (st : istate) (mpos : nat) (msgid : Z) (id : Z) (dm
              muxed (Ok ([], []));
     let '(kids, belows) := kb in
     let k := (msgid, ds_name dm) in
-    let mx1 := match lookup key_eqb k (is_sig_desc st) with Some d => set_desc mx d | None => mx end in
+    let mx1 := match lookup key_eqb k (ie_sig_desc env) with Some d => set_desc mx d | None => mx end in
     Ok ((mx1, kids ++ belows), set_sigmap st ((k, (mpos, id)) :: is_sigmap st)).
 
 (* ---- importMessage ---- *)
@@ -332,7 +324,7 @@ Definition app_nth {A} (n : nat) (x : A) (l : list (list A)) : list (list A) :=
 (* state threaded through the signals of one message *)
 Definition mstate := (istate * list signal)%type.
 
-Definition import_message_signals (st : istate) (mpos : nat) (dm : dmessage)
+Definition import_message_signals (env : ienv) (st : istate) (mpos : nat) (dm : dmessage)
   : result (istate * list signal) :=
   let msgid := dm_id dm in
   let isigs := index_from 0 (sort_by (fun a b => get_start_bit a <? get_start_bit b) (dm_signals dm)) in
@@ -344,7 +336,7 @@ Definition import_message_signals (st : istate) (mpos : nat) (dm : dmessage)
   | [] =>
       fold_left (fun acc '(id, ds) =>
         do (st0, sigs) <- acc;
-        do (s, st1) <- import_signal st0 mpos msgid id ds;
+        do (s, st1) <- import_signal env st0 mpos msgid id ds;
         top_insert (st1, sigs) (s, []) (get_start_bit ds)) isigs (Ok (st, []))
   | [(mid, dmx)] =>
       (* one multiplexer: multiplexed signals, plus the plain signals lying between the switch and
@@ -352,7 +344,7 @@ Definition import_message_signals (st : istate) (mpos : nat) (dm : dmessage)
       do r1 <- fold_left (fun acc '(id, ds) =>
                  do (st0, muxed, stds, last) <- acc;
                  if id =? mid then Ok (st0, muxed, stds, last) else
-                 do (s, st1) <- import_signal st0 mpos msgid id ds;
+                 do (s, st1) <- import_signal env st0 mpos msgid id ds;
                  let sp := get_start_bit ds in
                  if ds_muxed ds
                  then Ok (st1, muxed ++ [((s, []), ds)], stds, if sp >? last then sp else last)
@@ -367,7 +359,7 @@ Definition import_message_signals (st : istate) (mpos : nat) (dm : dmessage)
                  else do ms' <- top_insert ms t sp; Ok (ms', muxed2))
                stds (Ok ((st1, []), muxed));
       let '((st2, sigs), muxed2) := r2 in
-      do (mt, st3) <- import_mux_signal st2 mpos msgid mid dmx muxed2;
+      do (mt, st3) <- import_mux_signal env st2 mpos msgid mid dmx muxed2;
       top_insert (st3, sigs) mt mstart
   | _ =>
       let nmux := length muxes in
@@ -378,9 +370,9 @@ Definition import_message_signals (st : istate) (mpos : nat) (dm : dmessage)
       do r1 <- fold_left (fun acc '(id, ds) =>
                  do (ms, groups) <- acc;
                  if ds_muxor ds then Ok (ms, groups) else
-                 do (s, st1) <- import_signal (fst ms) mpos msgid id ds;
+                 do (s, st1) <- import_signal env (fst ms) mpos msgid id ds;
                  if ds_muxed ds then
-                   match lookup key_eqb (msgid, ds_name ds) (is_ext_muxes st1) with
+                   match lookup key_eqb (msgid, ds_name ds) (ie_ext_muxes env) with
                    | None => Err "extended multiplexing is required"
                    | Some em =>
                        match mux_idx (em_muxor em) with
@@ -395,8 +387,8 @@ Definition import_message_signals (st : istate) (mpos : nat) (dm : dmessage)
                  do (ms, groups) <- acc;
                  let '(mid, dmx) := nth j muxes (0, mkdsignal EmptyString false false 0 0 0 LittleEndian false
                                                           fl_one fl_zero fl_zero fl_zero EmptyString []) in
-                 do (mt, st1) <- import_mux_signal (fst ms) mpos msgid mid dmx (nth j groups []);
-                 match lookup key_eqb (msgid, ds_name dmx) (is_ext_muxes st1) with
+                 do (mt, st1) <- import_mux_signal env (fst ms) mpos msgid mid dmx (nth j groups []);
+                 match lookup key_eqb (msgid, ds_name dmx) (ie_ext_muxes env) with
                  | None => do ms' <- top_insert (st1, snd ms) mt (get_start_bit dmx); Ok (ms', groups)
                  | Some em =>
                      match mux_idx (em_muxor em) with
@@ -408,11 +400,11 @@ Definition import_message_signals (st : istate) (mpos : nat) (dm : dmessage)
       Ok (fst r2)
   end.
 
-Definition import_message (acc : istate * list message) (nodes : list node) (dm : dmessage)
+Definition import_message (env : ienv) (acc : istate * list message) (nodes : list node) (dm : dmessage)
   : result (istate * list message) :=
   let '(st, msgs) := acc in
   let mpos := length msgs in
-  let desc := match lookup Z.eqb (dm_id dm) (is_msg_desc st) with Some d => d | None => EmptyString end in
+  let desc := match lookup Z.eqb (dm_id dm) (ie_msg_desc env) with Some d => d | None => EmptyString end in
   let sorted := sort_by (fun a b => get_start_bit a <? get_start_bit b) (dm_signals dm) in
   let order := match sorted with [] => LittleEndian | s :: _ => ds_order s end in
   if negb (forallb (fun s => bo_eqb (ds_order s) order) sorted) then Err "byte order differs within the message"
@@ -426,7 +418,7 @@ Definition import_message (acc : istate * list message) (nodes : list node) (dm 
     else if dm_size dm >? 8 then Err "message size too big"
     else if mem_z (dm_id dm) (map m_canid msgs) then Err "static CAN-ID duplicated"
     else
-      do (st1, sigs) <- import_message_signals st mpos dm;
+      do (st1, sigs) <- import_message_signals env st mpos dm;
       Ok (st1, msgs ++ [mkmessage (dm_id dm) (dm_name dm) (dm_size dm) order 0 0 0 0 (dm_tx dm) recs desc [] sigs]).
 
 (* ------------------------------------------------------------------------------------------ *)
@@ -635,13 +627,14 @@ Definition import_attributes (sigmap : list (key * (nat * Z))) (d : doc) (b : bu
 (* importFile                                                                                  *)
 (* ------------------------------------------------------------------------------------------ *)
 Definition import (d : doc) : result bus :=
-  let '(bdesc, st0) := import_comments (d_comments d) in
-  do st1 <- fold_left (fun acc vt => do st <- acc; import_value_table st vt) (d_valtables d) (Ok st0);
-  do st2 <- fold_left (fun acc ve => do st <- acc; import_value_encoding st ve) (d_valencs d) (Ok st1);
-  let st3 := import_ext_muxes st2 (d_extmuxes d) in
-  do nodes <- import_nodes (is_node_desc st3) (d_nodes d);
-  do (st4, msgs) <- fold_left (fun acc dm => do a <- acc; import_message a nodes dm)
-                               (d_messages d) (Ok (st3, []));
+  let '(bdesc, (nd, md, sd)) := import_comments (d_comments d) in
+  do reg <- fold_left (fun acc vt => do r <- acc; import_value_table r vt) (d_valtables d) (Ok []);
+  do es_se <- fold_left (fun acc ve => do a <- acc; import_value_encoding (length reg) a ve)
+                        (d_valencs d) (Ok (reg, []));
+  let env := mkienv nd md sd (snd es_se) (import_ext_muxes (d_extmuxes d)) in
+  do nodes <- import_nodes nd (d_nodes d);
+  do (st4, msgs) <- fold_left (fun acc dm => do a <- acc; import_message env a nodes dm)
+                               (d_messages d) (Ok (mkistate (fst es_se) [] [], []));
   let b0 := mkbus (d_filename d) bdesc [] nodes (is_enums st4) msgs in
   do b1 <- import_attributes (is_sigmap st4) d b0;
   (* the placeholder node is removed when it sends nothing *)
